@@ -169,7 +169,7 @@ DEFAULT_KNOBS = dict(
     ranges=True, names=True, cse=True, intersection=True, multicolon=True,
     rowcol=True, unbounded=True, text=True, index=True, percent=True,
     abs_refs=True, sheet_refs=True, lead_consts=3,
-    iferr=True, rowcol_noarg=True, union=True, sumproduct=True,
+    iferr=True, rowcol_noarg=True, union=True, sumproduct=True, stats=True,
 )
 
 
@@ -178,7 +178,7 @@ def draw_knobs(rnd, **override):
     k = dict(DEFAULT_KNOBS)
     for feat in ('ranges', 'names', 'cse', 'intersection', 'multicolon', 'rowcol',
                  'unbounded', 'text', 'index', 'percent', 'abs_refs', 'sheet_refs',
-                 'iferr', 'rowcol_noarg', 'union', 'sumproduct'):
+                 'iferr', 'rowcol_noarg', 'union', 'sumproduct', 'stats'):
         k[feat] = rnd.random() < 0.7
     k['ranges'] = rnd.random() < 0.85
     k['p_const'] = rnd.choice((0.2, 0.35, 0.5))
@@ -399,6 +399,12 @@ class SpecGen:
         fn = rnd.choice(AGGS)
         if self.k.get('sumproduct') and rnd.random() < 0.08 and ' ' not in txt:
             return f'SUMPRODUCT({txt})', prec, []
+        if self.k.get('stats') and rnd.random() < 0.08 and ' ' not in txt:
+            # functions of pycel's statistics module (numpy inside)
+            fn = rnd.choice(('SLOPE', 'INTERCEPT', 'FORECAST'))
+            if fn == 'FORECAST':
+                return f'FORECAST({rnd.choice((2, 0.5, 10))},{txt},{txt})', prec, []
+            return f'{fn}({txt},{txt})', prec, []
         if rnd.random() < 0.25:
             t2, p2, d2 = self.atom()
             return f'{fn}({txt},{t2})', prec + p2, d2
